@@ -36,3 +36,17 @@ Example C19_example_accept : judge_hist [2;  2; -1; 1; 1; 1; 1; 0; 0;  11; 3; 1;
 Proof. vm_compute. reflexivity. Qed.
 Example C19_example_poison : judge_hist [1;  6; -1; 1; 1; 1; 0; 0; 0] = 72.
 Proof. vm_compute. reflexivity. Qed.
+
+(* ---------- the judge accepts EXACTLY the records that satisfy its specification (JudgeComplete3.v): completeness besides soundness,
+   a record of a correct answer is never rejected ---------- *)
+From Cmr Require JudgeComplete3.
+Theorem C19_judge_hist_accepts_exactly_the_specification :
+    forall (rec : list Z) (calls : list TimeoutModel.hcall) (rest : list Z),
+    TimeoutProofs.hist_input rec = Some (calls, rest) ->
+    TimeoutModel.judge_hist rec = 0%Z <-> JudgeComplete3.hist_spec calls.
+Proof. exact JudgeComplete3.judge_hist_iff. Qed.
+Print Assumptions C19_judge_hist_accepts_exactly_the_specification.
+Theorem C19_judge_threads_accepts_exactly_the_specification :
+    forall rec : list Z, TimeoutModel.judge_threads rec = 0%Z <-> JudgeComplete3.threads_spec rec.
+Proof. exact JudgeComplete3.judge_threads_iff. Qed.
+Print Assumptions C19_judge_threads_accepts_exactly_the_specification.
